@@ -158,6 +158,26 @@ def impl_eval(case):
             print_exception_details(exc)
         if f'Error detected in record {k}\n' not in out.getvalue():
             why = f'operator report does not say "Error detected in record {k}"'
+        elif case.get('cli') and not case.get('custom') and not case.get('pad'):
+            # the same file through the mci_ipm_to_csv command: return code -1 and the same report on the console
+            import os
+            import shutil
+            import tempfile
+            from cardutil.cli import mci_ipm_to_csv
+            d = tempfile.mkdtemp(prefix='verif_c10_')
+            try:
+                path = os.path.join(d, 'in.ipm')
+                open(path, 'wb').write(data)
+                con = io.StringIO()
+                with contextlib.redirect_stdout(con):
+                    rc = mci_ipm_to_csv.cli_run(in_filename=path, out_filename=path + '.csv', in_encoding=codec,
+                                                no1014blocking=not case['b'])
+                if rc != -1:
+                    why = f'mci_ipm_to_csv returned {rc!r} for a file whose record {k} is faulty (expected -1)'
+                elif f'Error detected in record {k}\n' not in con.getvalue():
+                    why = f'mci_ipm_to_csv did not report "Error detected in record {k}"'
+            finally:
+                shutil.rmtree(d, ignore_errors=True)
     return {'obs': f'ok {body} {render_end(exc)}', 'violation': why,
             'nontrivial': k > 1 or case['kind'] not in ('truncated', 'oversized'),
             'tags': [f"kind:{case['kind']}", f"fmt:{'1014' if case['b'] else 'vbs'}", f'codec:{codec}']}
@@ -185,6 +205,8 @@ def explore(run, tier):
                 for b in (0, 1):
                     for codec in ('latin_1', 'cp500'):
                         c = {'n': n, 'k': k, 'kind': kind, 'b': b, 'codec': codec}
+                        if n in (1, 3) and kind != 'shortrec':
+                            c['cli'] = True
                         cases.append(c)
                         if kind == 'oversized':
                             cases.append(dict(c, extra=2 ** 31))
